@@ -116,10 +116,17 @@ def judge_applied(run, cases, rows3):
 def check(run):
     run.proof_obligations()
     adm = run_admission(run, 600 if run.tier == "quick" else 20000)
-    cases = arb.generate(run, 150 if run.tier == "quick" else 3000)
+    cases = arb.generate(run, 150 if run.tier == "quick" else 3000, ctl=True)
     rows = arb.evaluate(run, cases)
     judge_arb(run, cases, rows)
     judge_applied(run, cases, arb.evaluate(run, cases, fn="c03_case", tag="arb3"))
+    # the layer in front of the arbitration: every TransportServer / GlobalConfiguration event is offered to the real informer
+    # handler; one that differs from the last event about the object (spec, class or UID) must reach the sync queue
+    part = [c for c in cases if not c.get("error")][: (60 if run.tier == "quick" else 1200)]
+    crow = arb.evaluate(run, part, fn="ctl_case", extra=arb.ctl_term, tag="arbctl")
+    arb.judge_delivery(run, part, crow, "C02", "the holder of a (listener, host) pair is then chosen among objects that are not the current ones "
+                       "(a re-created TransportServer keeps the age of its predecessor)", kinds=("ts", "gc"))
+    run.cov["controller_level_histories"] = len(part)
     run.sample({"admission_case": adm[0]} if adm else {})
     for c in cases[:1]:
         run.sample(arb.summarize_case(c))
